@@ -35,6 +35,10 @@ THEOREMS = [
     "C12_macro_patch_replace_order_irrelevant",
     "C12_macro_crates_order_irrelevant",
     "C12_macro_crates_refuted",
+    "C12_filling_stack_balanced",
+    "C12_filling_renderings_independent",
+    "C12_filling_fuel_monotone",
+    "C12_filling_address_irrelevant",
     "C12_parse_perm",
     "C12_output_sorted",
     "C12_output_perm_distinct_keys",
@@ -406,6 +410,117 @@ def gen_defaults_doc(rnd, all_kinds=False):
     return {"$schema": "http://json-schema.org/draft-07/schema#", "definitions": defs}, sorted(chosen)
 
 
+# ---------------------------------------------------------------------------
+# recursive types with member defaults (value.rs FILLING stack: fd85c79 / 4ed7b48)
+# ---------------------------------------------------------------------------
+REC_DOCS = {
+    "recdef": {"definitions": {"T": {"type": "object", "properties": {
+        "kids": {"type": "array", "items": {"$ref": "#/definitions/T"}, "default": []},
+        "next": {"$ref": "#/definitions/T", "default": {"kids": []}}}}}},
+    "recn": {"definitions": {"RecN": {"type": "object", "properties": {
+        "left": {"$ref": "#/definitions/RecN", "default": {}}, "right": {"$ref": "#/definitions/RecN", "default": {}},
+        "v": {"type": "integer", "default": 3}}}}},
+    "mutual": {"definitions": {
+        "A": {"type": "object", "properties": {"b": {"$ref": "#/definitions/B", "default": {"tags": ["x", "y"]}},
+                                                "n": {"type": "integer", "default": 1}}},
+        "B": {"type": "object", "properties": {"a": {"$ref": "#/definitions/A", "default": {"n": 5}},
+                                                "tags": {"type": "array", "items": {"type": "string"}, "uniqueItems": True,
+                                                         "default": ["p", "q", "r", "s"]}}},
+        "H": {"type": "object", "properties": {"a": {"$ref": "#/definitions/A", "default": {}},
+                                                "b": {"$ref": "#/definitions/B", "default": {}}}}}},
+}
+# a space whose rendering PANICS on the unchanged tree (finding C01-11: patch rename `my type` -> format_ident!),
+# with recursive member defaults in the same space
+PANIC_CASE = ({"patch": {"A": {"rename": "my type"}}},
+              {"definitions": dict(REC_DOCS["recn"]["definitions"],
+                                   A={"type": "object", "properties": {"a": {"type": "string"},
+                                                                        "r": {"$ref": "#/definitions/RecN", "default": {}}}})})
+
+
+def gen_rec_doc(rnd):
+    """random recursive / mutually recursive structs whose members default to values of the recursive types.
+    (The rendered default grows exponentially with the number of recursive defaulted members - every member default not
+    already in progress is expanded again - so at most 4 of them per document.)"""
+    n = rnd.randrange(1, 3)
+    names = ["R%d" % i for i in range(n)]
+    defs = {}
+    budget = 4
+    for nm in names:
+        props = {}
+        for j in range(rnd.randrange(1, 3)):
+            if budget == 0:
+                break
+            budget -= 1
+            tgt = rnd.choice(names)
+            dv = rnd.choice([{}, {"v": rnd.randrange(9)}, {"tags": _words(rnd, 4)}])
+            props["m%d_%s" % (j, rnd.choice(WORDS))] = {"$ref": "#/definitions/" + tgt, "default": dv}
+        if rnd.random() < 0.6:
+            props["kids"] = {"type": "array", "items": {"$ref": "#/definitions/" + rnd.choice(names)}, "default": []}
+        if rnd.random() < 0.3 and budget > 0:
+            budget -= 1
+            props["by_name"] = {"type": "object", "additionalProperties": {"$ref": "#/definitions/" + rnd.choice(names)},
+                                "default": {w: {} for w in _words(rnd, 2)}}
+        props["v"] = {"type": "integer", "default": rnd.randrange(1, 9)}
+        props["tags"] = {"type": "array", "uniqueItems": True, "items": {"type": "string"}, "default": _words(rnd, 4)}
+        defs[nm] = {"type": "object", "properties": props}
+    return {"definitions": defs}
+
+
+def sequence_check(ctx, viol):
+    """render -> (caught panic) -> render sequences on ONE thread vs the same documents alone in fresh processes"""
+    rnd = random.Random(ctx.seed * 31 + 77)
+    docs = {k: ({}, v) for k, v in REC_DOCS.items()}
+    for i in range(4 if ctx.tier == "quick" else 24):
+        docs["rec%d" % i] = ({"struct_builder": i % 2 == 0}, gen_rec_doc(rnd))
+    docs["panic"] = PANIC_CASE
+    names = [k for k in docs if k != "panic"]
+    step = lambda k, spaces=1, renders=1: {"name": k, "settings": docs[k][0], "text": json.dumps(docs[k][1]),
+                                           "spaces": spaces, "renders": renders}
+    seqs = [[step(k, 3, 4)] for k in names]
+    seqs.append([step("panic", 2, 2)] + [step(k, 2, 2) for k in names])
+    for _ in range(4 if ctx.tier == "quick" else 16):
+        order = [rnd.choice(names + ["panic"]) for _ in range(rnd.randrange(3, 9))]
+        seqs.append([step(k, rnd.randrange(1, 3), rnd.randrange(1, 4)) for k in order])
+    # reference: each document alone, first rendering of a fresh process (two processes each)
+    ref_cases = [{"id": k, "settings": docs[k][0], "text": json.dumps(docs[k][1]), "light": True} for k in docs]
+    refs = run_parallel([ref_cases, ref_cases])
+    ref = {}
+    for rs in refs:
+        for c, r in zip(ref_cases, rs):
+            val = r.get("tokens_digest") if r.get("outcome") == "ok" else r.get("outcome")
+            if ref.setdefault(c["id"], val) != val:
+                viol.append({"kind": "differs-across-processes-or-encodings", "document": "seq:" + c["id"], "settings": c["settings"],
+                             "settings_name": "seq", "run_a": {"process": 0, "encoding": "original", "text": c["text"], "result": refs[0][0]},
+                             "run_b": {"process": 1, "encoding": "original", "text": c["text"], "result": r}})
+    res = run_parallel([[{"id": i, "op": "seq", "steps": sq}] for i, sq in enumerate(seqs)])
+    n_renders, bad = 0, []
+    for sq, rs in zip(seqs, res):
+        for st, out in zip(sq, rs[0]["steps"]):
+            for o in out["outs"]:
+                n_renders += 1
+                if o != ref[st["name"]]:
+                    bad.append({"sequence": [x["name"] for x in sq], "step": st["name"], "in_sequence": o[:300],
+                                "alone_in_fresh_process": (ref[st["name"]] or "")[:300]})
+    if os.environ.get("C12_EMULATE") == "seq":
+        bad.append({"emulated": True})
+    ctx.oblige("direct: %d renderings in %d same-thread sequences (recursive member defaults, repeated renderings, fresh "
+               "spaces, after a caught render panic) equal the document alone in a fresh process" % (n_renders, len(seqs)),
+               not bad, json.dumps(bad[:3]))
+    ctx.evaluations += n_renders
+    ctx.coverage["sequence_renderings"] = n_renders
+    ctx.coverage["sequence_count"] = len(seqs)
+    ctx.coverage["sequence_panic_outcome"] = (ref.get("panic") or "")[:160]
+    if bad and not bad[0].get("emulated"):
+        b = bad[0]
+        k = b["step"]
+        viol.append({"kind": "rendering-depends-on-what-was-rendered-before-on-the-thread", "document": "seq:" + k,
+                     "settings_name": "seq", "settings_of_step": docs[k][0], "sequence": b["sequence"],
+                     "sequence_steps": [s_ for s_ in seqs if [x["name"] for x in s_] == b["sequence"]][0],
+                     "observed_in_sequence": b["in_sequence"], "expected_alone": b["alone_in_fresh_process"],
+                     "replay": "c12 run  <<< {\"op\":\"seq\",\"steps\":sequence_steps}  vs  the step's document alone"})
+    return docs
+
+
 # which generator families exercise a source file (used to focus the search when the inventory changes)
 FOCUS_BY_FILE = [
     ("value.rs", "defaults"), ("defaults.rs", "defaults"),
@@ -454,6 +569,10 @@ def collect_docs(ctx, focus=()):
         d = gen_doc(rnd, size)
         style = rnd.choice(STYLES)
         docs.append(("gen:%d:%s" % (i, size), dump_raw(load_raw(json.dumps(d)), "keep", style, rnd)))
+    for k, d in REC_DOCS.items():
+        docs.append(("gen:recursive-defaults:%s" % k, json.dumps(d, indent=1)))
+    for i in range(4 if ctx.tier == "quick" else 20):
+        docs.append(("gen:recursive-defaults:%d" % i, json.dumps(gen_rec_doc(rnd))))
     n_def = (8 if ctx.tier == "quick" else 40) + (40 if ("defaults" in focus or "all" in focus) else 0)
     for i in range(n_def):
         d, kinds = gen_defaults_doc(rnd)
@@ -705,7 +824,7 @@ def run(ctx):
             if name.startswith("fixture:typify-impl") and sn != "default":
                 continue
             # thorough: generated documents rotate through two of the four settings (fixtures get all)
-            if ctx.tier == "thorough" and name.startswith("gen:") and si % 2 != int(name.split(":")[1]) % 2:
+            if ctx.tier == "thorough" and name.startswith("gen:") and si % 2 != sum(map(ord, name)) % 2:
                 continue
             base.append((len(base), name, sn, s, text, raw))
     curated = corpus_cases()
@@ -807,6 +926,12 @@ def run(ctx):
             ctx.known_finding(fid, "%s: %s (reproduced on %s: %s)" % (fid, listed[fid]["summary"], name, kind))
         else:
             viol.append({"kind": "unlisted-known-class", "id": fid, "document": name})
+
+    # ---- same-thread sequences (thread-local state: value.rs FILLING)
+    try:
+        sequence_check(ctx, viol)
+    except Exception as e:  # noqa
+        ctx.oblige("same-thread sequence check ran", False, str(e))
 
     # ---- thorough: the REAL macro in fresh rustc processes (control input must be deterministic)
     if ctx.tier == "thorough" or os.environ.get("C12_REAL_MACRO"):
